@@ -1,6 +1,6 @@
 /-
-C14 on the tokenizer model: compressed ≡ decompressed for html and text filters at syntactically safe flush points,
-with no tokenizer hypothesis and no no-failure hypothesis (valid UTF-8 body, valid values).
+C14 on the tokenizer model: compressed ≡ decompressed for html and text filters, wherever the decoder flushes, with no
+tokenizer hypothesis and no no-failure hypothesis (valid UTF-8 body, valid values).
 -/
 import RioModel.Props.C14
 import RioModel.Props.C03tok
@@ -12,25 +12,24 @@ open Rio.Filter Rio.C03
 
 variable {D E : Type}
 
-/-- **Compressed ≡ decompressed, final form.**  Under the two codec laws, for a stream that decodes to a non-empty
-valid UTF-8 body `b`, inner html / text stages with valid values (`Down`), and every partition `cs` of the compressed
-stream: if the decoder's flush points are syntactically safe for every inner html stage (`synSafeGB` on the decoder's
-non-empty outputs, and on `b` as one chunk), the output of `decode :: inner ++ [encode]` is a complete valid stream that
-decodes to the output of the inner filters on `b`. -/
+/-- **Compressed ≡ decompressed, final form.**  Under the two codec laws, for a stream that decodes to a valid UTF-8 body
+`b`, fresh inner html / text stages with valid values (`Down`, `StageInit`: as `FilterBodyAction::new` builds them), and
+every partition `cs` of the compressed stream: the output of `decode :: inner ++ [encode]` is a complete valid stream
+that decodes to the output of the inner filters on `b`.  NO hypothesis on the decoder's flush points (since fe7eac6 the
+inner chain is chunk-invariant at every cut: `Rio.C03.chunk_invariant_final`). -/
 theorem compressed_equiv_final (ev : Bytes → Bytes → Bool) (codec : Codec D E) {d0 : D} {e0 : E}
     {decode : Bytes → Option Bytes} (laws : CodecLaws codec d0 e0 decode)
-    (inner : List (Stage D E)) (hdown : Down inner) (z b : Bytes) (hz : decode z = some b) (hb : b ≠ []) (hvb : V b)
-    (cs : List Bytes) (hcs : cs.flatten = z)
-    (hsafe : ∀ ps pe, decRun codec d0 cs = some (ps, pe) → synSafeGB ev codec inner (nonEmpty ps) (optB pe) = true)
-    (hsafe1 : synSafeGB ev codec inner [b] none = true) :
+    (inner : List (Stage D E)) (hdown : Down inner) (hinit : ∀ st ∈ inner, StageInit htmlTokenize st)
+    (z b : Bytes) (hz : decode z = some b) (hvb : V b)
+    (cs : List Bytes) (hcs : cs.flatten = z) :
     decode (({ items := .decode d0 :: inner ++ [.encode e0] } : Chain D E).run htmlTokenize ev codec cs) =
       some (({ items := inner } : Chain D E).run htmlTokenize ev codec [b]) := by
   have hplain : AllPlain inner := by
     intro st hst
     have := hdown st hst
     cases st <;> simp_all [DStage, isPlain]
-  obtain ⟨ps, pe, h1, h2, _⟩ := compressed_equiv htmlTokenize ev codec laws inner z b hz cs hcs
-  apply compressed_equiv_safe htmlTokenize ev codec laws inner hplain z b hz hb cs hcs
+  apply compressed_equiv_html htmlTokenize ev codec laws htmlTokenize_losslessS htmlTokenize_restartLaw inner hplain hinit
+    z b hz cs hcs
   · intro ps' pe' hd
     have hstream : V ((nonEmpty ps').flatten ++ (optB pe').getD []) := by
       obtain ⟨ps2, pe2, k1, k2⟩ := laws.dec z b hz cs hcs
@@ -40,10 +39,22 @@ theorem compressed_equiv_final (ev : Bytes → Bytes → Bool) (codec : Codec D 
       subst k1a k1b
       rw [nonEmpty_flatten, optB_getD, k2]
       exact hvb
-    refine ⟨safeG_of_syn ev codec inner _ _ (hsafe ps' pe' hd), ?_⟩
-    obtain ⟨out, ho, _⟩ := runG_ok htmlTokenize_lossless htmlTokenize_tokValid ev codec inner _ _ hdown hstream
+    obtain ⟨out, ho, _⟩ := runG_ok htmlTokenize_losslessAll Rio.C04.tokenizer_tokValid ev codec inner _ _ hdown hstream
     rw [ho]; simp
-  · exact safeG_of_syn ev codec inner [b] none hsafe1
   · exact no_call_fails ev codec inner hdown [b] (by simpa using hvb)
+
+/-- the inner stages `FilterBodyAction::new` builds satisfy the two hypotheses on `inner` (values valid UTF-8) -/
+theorem new_inner_ready (fs : List BodyFilter) (ct : Option String) (hval : ∀ f ∈ fs, V (Rio.C04.filterValue f)) :
+    Down (fs.filterMap fun f => (Stage.new f ct : Option (Stage Unit Unit))) ∧
+    ∀ st ∈ (fs.filterMap fun f => (Stage.new f ct : Option (Stage Unit Unit))), StageInit htmlTokenize st := by
+  constructor
+  · intro st hst
+    simp only [List.mem_filterMap] at hst
+    obtain ⟨f, hf, hnew⟩ := hst
+    exact Rio.C04.stage_new_down f ct st (hval f hf) hnew
+  · intro st hst
+    simp only [List.mem_filterMap] at hst
+    obtain ⟨f, hf, hnew⟩ := hst
+    exact stage_new_init htmlTokenize htmlStream_nil_nil f ct st hnew
 
 end Rio.C14
